@@ -138,6 +138,39 @@ struct Canon {
     ids: HashMap<usize, usize>,
 }
 
+// Payloads longer than this are summarised as [tag, "...", len, hash] (0 = never). Set per request.
+static ABBREV: AtomicUsize = AtomicUsize::new(0);
+
+fn abbreviate(v: Value) -> Value {
+    let n = ABBREV.load(Ordering::Relaxed);
+    if n == 0 {
+        return v;
+    }
+    if let Value::Array(a) = &v {
+        if a.len() >= 2 {
+            let len = match &a[1] {
+                Value::Array(xs) => xs.len(),
+                Value::String(st) => st.len(),
+                _ => 0,
+            };
+            if len > n {
+                let text = a[1].to_string();
+                let mut h: u64 = 0xcbf29ce484222325;
+                for b in text.as_bytes() {
+                    h ^= *b as u64;
+                    h = h.wrapping_mul(0x100000001b3);
+                }
+                let mut out = vec![a[0].clone(), json!("..."), json!(len), json!(format!("{:016x}", h))];
+                if a.len() > 2 {
+                    out.push(a[2].clone());
+                }
+                return Value::Array(out);
+            }
+        }
+    }
+    v
+}
+
 fn num_canon(n: &NNum) -> Value {
     match n {
         NNum::Int(i) => {
@@ -162,14 +195,14 @@ impl Canon {
     // visit and ["@", id] afterwards.
     fn wrap(&mut self, ptr: usize, count: usize, inner: impl FnOnce(&mut Canon) -> Value) -> Value {
         if !self.shape {
-            return inner(self);
+            return abbreviate(inner(self));
         }
         if let Some(id) = self.ids.get(&ptr) {
             return json!(["@", id]);
         }
         let id = self.ids.len();
         self.ids.insert(ptr, id);
-        let v = inner(self);
+        let v = abbreviate(inner(self));
         json!(["#", id, count, v])
     }
     fn obj(&mut self, o: &Obj) -> Value {
@@ -372,6 +405,7 @@ impl Server {
         let want_alloc = req.get("alloc_thresh").and_then(|x| x.as_u64());
         let compact = req.get("compact").and_then(|x| x.as_bool()).unwrap_or(false);
         let parse_only = req.get("parse_only").and_then(|x| x.as_bool()).unwrap_or(false);
+        ABBREV.store(req.get("abbrev").and_then(|x| x.as_u64()).unwrap_or(0) as usize, Ordering::Relaxed);
         let dump_names: Vec<String> = req
             .get("dump")
             .and_then(|x| x.as_array())
